@@ -619,6 +619,8 @@ def hard_error_regions(built, diags):
 
 def _serves(r, pid):
     """does the fn region carry a clause of pid (label `@Cxx.` in its text, or props=..; no props and no labels: every property)"""
+    if pid == "C14":
+        return True     # panic-freedom is an obligation of every function under contract
     labs = set(m.split(".")[0] for m in re.findall(r"@(C\d\d\.[A-Za-z0-9_]+)", r.body))
     props = set(r.props() or [])
     if not labs and not props:
@@ -705,6 +707,10 @@ def label_from_template(built, reg, l0, l1):
     return None
 
 
+# stand-ins of the units whose precondition models a panic of the real call
+PANIC_FNS = ("vx_assert", "flip_bit", "vx_select_idle")
+
+
 class Failure:
     def __init__(self, unit, fn, kind, label, message, rendered, in_region, props):
         # a clause may serve several properties: `// @C19.x @C15.y`; the first label names the obligation
@@ -712,6 +718,7 @@ class Failure:
         label = self.labels[0] if self.labels else None
         self.unit, self.fn, self.kind, self.label = unit, fn, kind, label
         self.message, self.rendered, self.in_region, self.props = message, rendered, in_region, props
+        self.panic = False
 
     def obligation(self):
         return "%s::%s#%s" % (self.unit, self.fn, self.label or self.kind)
@@ -769,8 +776,14 @@ def classify(built, res, diags):
             if wreg is not None and wreg.changed and wreg.kind == "fn":
                 label = label_from_template(built, wreg, where["line_start"], where["line_end"])
         fn = reg.name if reg else (enclosing_fn(built, site_line) if site_line else "?")
-        failures.append(Failure(built.unit, fn, kind, label, msg, d.get("rendered", ""), reg is not None,
-                                reg.props() if reg else None))
+        fl = Failure(built.unit, fn, kind, label, msg, d.get("rendered", ""), reg is not None,
+                     reg.props() if reg else None)
+        # panic class (C14): an obligation whose failure means that the executable code can panic -- arithmetic overflow, an index
+        # out of bounds, or the precondition of a std function (unwrap / expect / index / insert ...: the clause lives in vstd) or of
+        # one of the unit's stand-ins for a panicking call
+        callee = enclosing_fn(built, clause["line_start"]) if (clause is not None and clause.get("file_name") == built.path) else None
+        fl.panic = kind in ("arithmetic", "bounds") or (kind == "precondition" and clause is not None and (clause.get("file_name") != built.path or callee in PANIC_FNS))
+        failures.append(fl)
     return failures, hard, rlimits
 
 
